@@ -83,12 +83,19 @@ def main(argv):
     axioms, assum_note = ([], 'skipped (build broken)')
     if not undischarged and obs:
         axioms, assum_note = vlib.assumptions_for(pid)
+    chk_note, chk_axioms = '', []
+    if tier == 'thorough' and not undischarged and obs:
+        ok, chk_axioms, chk_cmd, chk_wall, chk_tail = vlib.coqchk_for(pid)
+        chk_note = ' ; %s (ok=%s, %.0fs)' % (chk_cmd, ok, chk_wall)
+        if not ok:
+            ctx.problem('proof', 'coqchk rejects the compiled obligations of %s: %s' % (pid, chk_tail), inputs=None, failing_input_found=False)
     coverage = {
         'obligations': len(obs),
         'discharged': len(obs) - len(undischarged),
-        'checker_cmd': b.cmd + ' ; coqc Print Assumptions over Props/%s (%s)' % (pid, assum_note),
+        'checker_cmd': b.cmd + ' ; coqc Print Assumptions over Props/%s (%s)' % (pid, assum_note) + chk_note,
         'trusted_base': ['Coq 8.16.1 kernel + coqc + vm_compute (no native_compute)'] +
                         ['axiom: ' + a for a in axioms] +
+                        ['coqchk -o axiom (whole closure): ' + a for a in chk_axioms] +
                         (['Print Assumptions: all theorems closed under the global context'] if not axioms and obs and not undischarged else []) +
                         list(getattr(mod, 'TRUSTED', [])),
         'obligation_files': obs,
